@@ -555,9 +555,10 @@ func c08(c *Ctx) {
 		"(ruleAction/addRule/planner.compile); for every (state, terminal) the action is read back from Tables.Action/Lalr/Lookaheads and the decision list is checked against the alternatives conflicting on THAT terminal " +
 		"(single candidate: must be the plain empty rule). " +
 		"(C) end to end: grammars Input: (?= P & !Q ...) F_i T T -> R<i> with 2-4 alternatives (decision-list shaped, 15% mutated; first-token sets F_i all terminals or random subsets; predicates = random prefix-free finite languages) " +
-		"plus two fixed shapes (negated case inside the list; per-terminal subsets) go through the real compiler+generator, each as cancellable and non-cancellable parser with/without optimizeTables; " +
+		"(some predicate nonterminals are ALSO declared as regular `%input P;` with eoi or as `%input P no-eoi;`) plus four fixed shapes (negated case inside the list; per-terminal subsets; predicate that is also an eoi input; nested lookahead with recursiveLookaheads so that the template function lookaheadRule runs) go through the real compiler+generator, each as cancellable and non-cancellable parser with/without optimizeTables; " +
 		"the generated parsers run on all token strings of length 3; oracle: predicate outcomes by brute-force prefix recognition, expected alternative = the unique one (among those that can start with the first token) whose conjunction holds; " +
 		"the same (alternatives, outcomes) go to the Lean mirror's decision chain. " +
+		"table level: every case of Tables.Lookaheads of the compiled grammar must be bound to a NO-EOI entry point of its predicate nonterminal and, read that way, decide correctly under all predicate outcomes. " +
 		"Brute-force oracle over all valuations in (A),(B). non-trivial = at least 2 alternatives with a predicate; distinct by alternative list (A,B) / parser+input (C)"
 	n := c.N(4000, 300000)
 	var exactLines, exactGo []string
